@@ -159,6 +159,7 @@ type bmTx struct {
 	Fee    int64
 	State  string // pool | batch | executed | refunded
 	Batch  uint64
+	EVM    bool // created through the precompile or by a Cosmos message
 }
 type bmBatch struct {
 	Chain   string
@@ -180,6 +181,7 @@ type bmCall struct {
 	ResultAt uint64 // event nonce of the observed result claim (0 = none)
 	ResultOK bool
 	Inbound  bool // refund record created by a failed inbound call (not modelled further)
+	EVM      bool // created through the precompile (refunds come back as ERC-20) or by a Cosmos message (as coins)
 }
 
 type bmState struct {
@@ -221,6 +223,19 @@ func (s *bmState) heldBy(ctx sdk.Context, u int, ti int) *big.Int {
 		}
 	}
 	sum.Add(sum, s.f.BalanceOf(ctx, t.ERC20, acc.Hex()))
+	return sum
+}
+
+// coinFormOf is the part of heldBy that sits in the bank module (base + bridge denominations).
+func (s *bmState) coinFormOf(ctx sdk.Context, u int, ti int) *big.Int {
+	t := s.tok(ti)
+	bal := s.f.App.BankKeeper.GetAllBalances(ctx, s.f.Users[u].Acc())
+	sum := new(big.Int).Set(bal.AmountOf(t.Base).BigInt())
+	for _, d := range t.Bridge {
+		if d != t.Base {
+			sum.Add(sum, bal.AmountOf(d).BigInt())
+		}
+	}
 	return sum
 }
 
@@ -529,7 +544,27 @@ func runBridgeMachine(c bmCase, which string, rec *ev.Recorder) *Failure {
 				heldPre[[2]int{uu, tt}] = s.heldBy(ctx, uu, tt)
 			}
 		}
-		expect := map[[2]int]int64{} // expected held deltas of this step
+		expect := map[[2]int]int64{}      // expected held deltas of this step
+		refundForm := map[[2]int]string{} // for refunds of this step: the form the value was paid in ("coin" | "erc20" | "mixed")
+		refundCoin := map[[2]int]int64{}  // the part of this step's refunds that was paid in coin form
+		noteRefund := func(key [2]int, amt int64, evm bool) {
+			fm := "coin"
+			if evm {
+				fm = "erc20"
+			} else {
+				refundCoin[key] += amt
+			}
+			if old, ok := refundForm[key]; ok && old != fm {
+				fm = "mixed"
+			}
+			refundForm[key] = fm
+		}
+		coinPre := map[[2]int]*big.Int{}
+		for uu := range f.Users {
+			for tt := range f.Tokens {
+				coinPre[[2]int{uu, tt}] = s.coinFormOf(ctx, uu, tt)
+			}
+		}
 		lastObsHeightPre := k.GetLastObservedBlockHeight(ctx).ExternalBlockHeight
 		observedThisStep := false
 		acc := f.Users[u]
@@ -593,7 +628,7 @@ func runBridgeMachine(c bmCase, which string, rec *ev.Recorder) *Failure {
 						return failf("C05/id-reused", "%s: new id %d is not larger than existing %s", desc, id, key)
 					}
 				}
-				s.txs[bmKey(ch, id)] = &bmTx{ID: id, Chain: ch, Tok: ti, Sender: u, Dest: dest, Amount: amt, Fee: fee, State: "pool"}
+				s.txs[bmKey(ch, id)] = &bmTx{ID: id, Chain: ch, Tok: ti, Sender: u, Dest: dest, Amount: amt, Fee: fee, State: "pool", EVM: op.EVM}
 				s.txOrder = append(s.txOrder, bmKey(ch, id))
 				expect[[2]int{u, ti}] -= amt + fee
 				s.labels["send"] = true
@@ -650,6 +685,7 @@ func runBridgeMachine(c bmCase, which string, rec *ev.Recorder) *Failure {
 					}
 					m.State = "refunded"
 					expect[[2]int{u, ti}] += m.Amount + m.Fee
+					noteRefund([2]int{u, ti}, m.Amount+m.Fee, m.EVM)
 					s.labels["cancel"] = true
 					if m.Batch != 0 {
 						s.labels["cancel-after-batch"] = true
@@ -770,7 +806,7 @@ func runBridgeMachine(c bmCase, which string, rec *ev.Recorder) *Failure {
 					nc.Refund != crosschaintypes.ExternalAddrToStr(ch, acc.Hex().Bytes()) {
 					return failf("C05/call-fields", "%s: stored call %+v differs from what the creator supplied (token %s amount %d to %s data 010203 refund %s)", desc, nc, t.Name, amt, to, acc.Hex())
 				}
-				s.calls[bmKey(ch, nc.Nonce)] = &bmCall{Chain: ch, Nonce: nc.Nonce, Sender: u, Tok: ti, Amt: amt, Timeout: nc.Timeout, State: "open"}
+				s.calls[bmKey(ch, nc.Nonce)] = &bmCall{Chain: ch, Nonce: nc.Nonce, Sender: u, Tok: ti, Amt: amt, Timeout: nc.Timeout, State: "open", EVM: op.EVM}
 				expect[[2]int{u, ti}] -= amt
 				s.labels["bridgecall"] = true
 			}
@@ -841,6 +877,7 @@ func runBridgeMachine(c bmCase, which string, rec *ev.Recorder) *Failure {
 						} else {
 							mc.State = "refunded"
 							expect[[2]int{mc.Sender, mc.Tok}] += mc.Amt
+							noteRefund([2]int{mc.Sender, mc.Tok}, mc.Amt, mc.EVM)
 						}
 					}
 				}
@@ -1020,6 +1057,7 @@ func runBridgeMachine(c bmCase, which string, rec *ev.Recorder) *Failure {
 				mc.State = "refunded"
 				if !mc.Inbound {
 					expect[[2]int{mc.Sender, mc.Tok}] += mc.Amt
+					noteRefund([2]int{mc.Sender, mc.Tok}, mc.Amt, mc.EVM)
 				}
 				s.labels["call-timeout"] = true
 			}
@@ -1056,6 +1094,16 @@ func runBridgeMachine(c bmCase, which string, rec *ev.Recorder) *Failure {
 							sig = "C05/settlement-amount/" + op.Kind
 						}
 						return failf(sig, "%s: user %d token %s holdings changed by %s, the operation states %s", desc, uu, s.tok(tt).Name, got, want)
+					}
+					// a refund comes back in the form it was paid in: coins for a Cosmos message, ERC-20 for the precompile
+					// (the wrapped native coin is left out: both of its forms are spendable as the native coin)
+					if fm, ok := refundForm[[2]int{uu, tt}]; ok && which == "C05" && s.tok(tt).Kind != sim.KindFX {
+						coinDelta := new(big.Int).Sub(s.coinFormOf(ctx, uu, tt), coinPre[[2]int{uu, tt}])
+						wantCoin := big.NewInt(refundCoin[[2]int{uu, tt}])
+						if coinDelta.Cmp(wantCoin) != 0 {
+							return failf("C05/refund-form/"+op.Kind, "%s: user %d is refunded %s %s for something paid in %s form, but the coin part of its holdings changed by %s", desc, uu, want, s.tok(tt).Name, fm, coinDelta)
+						}
+						s.labels["refund-form-checked:"+fm] = true
 					}
 				}
 			}
